@@ -138,4 +138,31 @@ def run_case(case, seed):
         if common('ortho', T, ret, before, set(range(d))):
             for i in range(1, d):
                 r.true('ortho:isometry', is_right_orth(T.cores[i]), 'core %d not right-orthonormal' % i)
+    # call histories on ONE object: a sweep, then a core is replaced from outside (what the solvers do with t.cores[k] = ...)
+    # or the opposite sweep is run, then the sweep again: the second sweep must establish the gauge afresh
+    if d >= 2 and case['fam'] == 'gauss' and case.get('lay') != 'V':
+        from vt.core import dense_cores
+        for side in ('left', 'right'):
+            sweep = (lambda T: T.ortho_left()) if side == 'left' else (lambda T: T.ortho_right())
+            other = (lambda T: T.ortho_right()) if side == 'left' else (lambda T: T.ortho_left())
+            iso = (lambda T: all(is_left_orth(T.cores[i]) for i in range(d - 1))) if side == 'left' else (lambda T: all(is_right_orth(T.cores[i]) for i in range(1, d)))
+            for k in list(range(d)) + ['opposite', 'rank_transpose']:
+                key = 'ortho_%s:after-history' % side
+                with r.op(key + ':call'):
+                    T = tt_from(cores0)
+                    sweep(T)
+                    if k == 'opposite':
+                        other(T)
+                    elif k == 'rank_transpose':
+                        T.rank_transpose(overwrite=True)
+                    else:
+                        shp = T.cores[k].shape
+                        new_core = rng.standard_normal(shp) + (1j * rng.standard_normal(shp) if case['c'] else 0)
+                        T.cores[k] = new_core
+                    ref = dense_cores([np.array(c_) for c_ in T.cores])
+                    sweep(T)
+                    mp = meta_problem(T)
+                    if r.true(key + ':meta', mp is None, mp):
+                        r.close(key + ':value', dense_cores(T.cores), ref, TOL, 'history: ortho_%s, %s, ortho_%s' % (side, k if isinstance(k, str) else 'core %d replaced' % k, side))
+                        r.true(key + ':isometry', iso(T), 'history: ortho_%s, %s, ortho_%s: cores not orthonormal afterwards' % (side, k if isinstance(k, str) else 'core %d replaced' % k, side))
     return r
